@@ -275,7 +275,8 @@ def skelAnswer (h : Spec.Sklb.Header) (p : Enc) (f : TagFile) : Option String :=
   if !wf f then none
   let bones ← bonesOf f
   let file := Spec.Sklb.encode h (encode p f)
-  let tags := if usesUnimplemented [] f then ["kf:havok-unimplemented-member-kind"] else []
+  let tags := (if usesUnimplemented [] f then ["kf:havok-unimplemented-member-kind"] else []) ++
+    (if hasDatalessStructArray f then ["kf:havok-array-length-guard"] else [])
   pure (answer ("skel " ++ Bytes.toHex file) ("some " ++ showSkelS bones) tags
     (some (showOutcome showSkelM (Sklb.fromExisting file))))
 
